@@ -369,6 +369,16 @@ func runOpClose(w *c14World, scratch string, op string, fail map[int]bool, close
 			eng.Administrator.SetParams(np)
 			plan.active = true
 			res.err = eng.Administrator.Save()
+		case "saveretry":
+			// a Save under faults, then a second Save on the healthy store: what the second one reports
+			eng.UpdateTripsAndBackfill(flap.EpochTime(w.now))
+			np := w.params
+			np.DailyTotal += 17.5
+			eng.Administrator.SetParams(np)
+			plan.active = true
+			eng.Administrator.Save()
+			plan.active = false
+			res.err = eng.Administrator.Save()
 		}
 	}()
 	plan.active = false
@@ -503,14 +513,14 @@ func runC14(o *Out, rng *Rng, tier string, replay string) {
 	} else if tier == "search" {
 		nWorlds, pairs = 20, 40
 	}
-	o.sum.Rule = "case = one operation (check-in, Make current and stale, daily update, administrator Save) on a copy of a prepared database image with storage faults injected through a db.Database wrapper at EVERY single call position of its fault-free trace (get, put, snapshot, batch creation, iterator creation, iteration error, batch put, flush) and at sampled pairs of positions; at every write position of the travellers table also a REAL failure (the table is closed underneath so that the wrapped goleveldb call itself fails); in addition multi-threaded daily updates (2, 4, 8, 16 workers) with a fault at every call position of every worker, addressed per worker goroutine, healthy workers held at their final flush until the fault has been injected so that they report after the failing one; the reported result is compared with the model's skeleton under the same schedule, and after a clean reopen the stored state must equal the fault-free outcome whenever success was reported; non-trivial = a fault position at which the operation must (and does) report an error; distinct by (world, operation, positions)"
+	o.sum.Rule = "case = one operation (check-in, Make current and stale, daily update, administrator Save, and a second Save on the healthy store after a faulted one) on a copy of a prepared database image with storage faults injected through a db.Database wrapper at EVERY single call position of its fault-free trace (get, put, snapshot, batch creation, iterator creation, iteration error, batch put, flush) and at sampled pairs of positions; at every write position of the travellers table also a REAL failure (the table is closed underneath so that the wrapped goleveldb call itself fails); in addition multi-threaded daily updates (2, 4, 8, 16 workers) with a fault at every call position of every worker, addressed per worker goroutine, healthy workers held at their final flush until the fault has been injected so that they report after the failing one; the reported result is compared with the model's skeleton under the same schedule, and after a clean reopen the stored state must equal the fault-free outcome whenever success was reported; non-trivial = a fault position at which the operation must (and does) report an error; distinct by (world, operation, positions)"
 	wd := filepath.Join(o.dir, "worlds")
 	for wi := 0; wi < nWorlds; wi++ {
 		r := rng.Fork()
 		w := buildWorld(r, filepath.Join(wd, fmt.Sprintf("w%04d", wi)), 1)
 		scratch := filepath.Join(wd, fmt.Sprintf("s%04d", wi))
 		hasPred := w.params.Promises.Algo&0x0f != 0
-		ops := []string{"submit", "update", "save"}
+		ops := []string{"submit", "update", "save", "saveretry"}
 		if hasPred {
 			ops = append(ops, "make", "makestale")
 		}
@@ -554,6 +564,8 @@ func runC14(o *Out, rng *Rng, tier string, replay string) {
 					shape = fmt.Sprintf("FMake %s false %s", List(fl), Bool(ok))
 				case "save":
 					shape = fmt.Sprintf("FSave %s %s %s", List(fl), Bool(hasPred), Bool(ok))
+				case "saveretry":
+					shape = fmt.Sprintf("FSave [] %s %s", Bool(hasPred), Bool(ok)) // the reported result is that of the second, fault-free Save
 				default:
 					shape = fmt.Sprintf("FUpdate [%s] %s %s", List(ws), List(fl), Bool(ok))
 				}
@@ -579,12 +591,15 @@ func runC14(o *Out, rng *Rng, tier string, replay string) {
 					o.Fail(MonitorFailure{Property: "C14", Signature: "panic-under-storage-fault", What: fmt.Sprintf("%s panicked with faults at %v (%v): %v", op, faults, kindsOf(base.trace, faults), res.err), Replay: rep})
 					return
 				}
-				if res.err == nil && op != "makestale" && len(faults) > 0 && !allKind(base.trace, faults, "get") && (res.digest == base.digest && res.admin == base.admin) {
+				if res.err == nil && op != "makestale" && op != "saveretry" && len(faults) > 0 && !allKind(base.trace, faults, "get") && (res.digest == base.digest && res.admin == base.admin) {
 					// the stored state happens to equal the fault-free one (e.g. the record re-written was unchanged), but a failed write was still reported as success
 					o.Fail(MonitorFailure{Property: "C14", Signature: "failed-store-call-reported-as-success", What: fmt.Sprintf("%s returned success although store call(s) %v (%v) failed", op, faults, kindsOf(base.trace, faults)), Replay: rep})
 				}
-				if res.err == nil && op != "makestale" && (res.digest != base.digest || (op == "save" || op == "update") && res.admin != base.admin) {
+				if res.err == nil && op != "makestale" && (res.digest != base.digest || (op == "save" || op == "saveretry" || op == "update") && res.admin != base.admin) {
 					sig := "success-reported-but-effects-not-stored"
+					if op == "saveretry" {
+						sig = "save-after-failed-save-reports-success-but-state-not-stored"
+					}
 					if len(faults) > 0 && allKind(base.trace, faults, "get") {
 						sig = "read-fault-treated-as-new-traveller"
 					}
